@@ -10,7 +10,6 @@ import (
 	"go/ast"
 	"go/token"
 	"go/types"
-	"strings"
 )
 
 type DefKind int
@@ -141,13 +140,10 @@ func (f *Func) Resolve(e ast.Expr) Val {
 			return Val{e, -1}
 		}
 		defs := f.Defs(obj)
-		if len(defs) == 2 && strings.HasPrefix(obj.Name(), "_inl") {
-			// a result variable generated by the normaliser (normalize.go): `var x T` followed by the
-			// assignment at the inlined helper's return; the zero declaration never reaches a use
-			if defs[0].Kind == DefZero {
-				defs = defs[1:]
-			} else if defs[1].Kind == DefZero {
-				defs = defs[:1]
+		if len(defs) > 1 {
+			// several definitions: flow-sensitive answer - the single definition that reaches this use
+			if d, ok := f.reachingDef(obj, id, defs); ok {
+				defs = []Def{d}
 			}
 		}
 		if len(defs) != 1 || defs[0].Kind != DefAssign {
@@ -426,4 +422,65 @@ func (f *Func) soleFuncParam() types.Object {
 		return out
 	}
 	return nil
+}
+
+// reachingDef: among several definitions of obj, the only one that reaches the
+// use id (every other definition is overwritten, or leaves the function, on all
+// paths to the use). Decided on the CFG of the function that contains the use,
+// and only when all definitions are nodes of that same graph (a definition or a
+// use inside another function literal runs at an unknown time).
+func (f *Func) reachingDef(obj types.Object, id *ast.Ident, defs []Def) (Def, bool) {
+	if f.rdCache == nil {
+		f.rdCache = map[*ast.Ident]*Def{}
+	}
+	if d, ok := f.rdCache[id]; ok {
+		if d == nil {
+			return Def{}, false
+		}
+		return *d, true
+	}
+	f.rdCache[id] = nil
+	if f.Body == nil || id.Pos() < f.Body.Pos() || id.End() > f.Body.End() {
+		return Def{}, false
+	}
+	use := f.Find(func(n ast.Node) bool { return n == ast.Node(id) })
+	if len(use) != 1 {
+		return Def{}, false
+	}
+	sites := make([]Site, len(defs))
+	for i, d := range defs {
+		if d.Kind != DefAssign && d.Kind != DefZero {
+			return Def{}, false
+		}
+		ds := f.Find(func(n ast.Node) bool { return n == d.Node })
+		if len(ds) != 1 {
+			return Def{}, false
+		}
+		sites[i] = ds[0]
+	}
+	g := f.Graph()
+	isDef := func(p Point, _ ast.Node) bool {
+		for _, s := range sites {
+			if s.P == p {
+				return true
+			}
+		}
+		return false
+	}
+	var reaching []int
+	for i := range defs {
+		if sites[i].P == use[0].P {
+			// the use is part of the defining statement itself (x = f(x)): the right-hand side sees
+			// the earlier definitions, not this one, unless a loop brings it back
+		}
+		if pt, _ := g.Reach(sites[i].After(), Cut{Stop: isDef}, atSite(use[0])); pt != nil {
+			reaching = append(reaching, i)
+		}
+	}
+	if len(reaching) != 1 {
+		return Def{}, false
+	}
+	d := defs[reaching[0]]
+	f.rdCache[id] = &d
+	return d, true
 }
